@@ -17,6 +17,8 @@ func checkC07(r *Run) {
 	falsySetRuleSSA(r, "R2")
 	ifBranchRuleSSA(r, "R3")
 	elseIfOrderRule(r, "R4")
+	r.Rule("R5", "an unknown identifier is falsy in member and call position too: while the tolerance sites assert the concrete error type, no function wraps the error of an expression evaluation into a new one", 1)
+	unknownIdentifierPassThroughRule(r, "R5")
 }
 
 // ---- R2 ---------------------------------------------------------------------
